@@ -330,7 +330,20 @@ func logsloglevel2Level(level logslog.Level) Level {
 	case LevelPanic:
 		return PanicLevel
 	}
-	return FatalLevel
+	// any other value is a log/slog level between (or beyond) the standard
+	// ones: it belongs to the standard level below it, never to a
+	// terminating severity.
+	switch {
+	case level < logslog.LevelDebug:
+		return TraceLevel
+	case level < logslog.LevelInfo:
+		return DebugLevel
+	case level < logslog.LevelWarn:
+		return InfoLevel
+	case level < logslog.LevelError:
+		return WarnLevel
+	}
+	return ErrorLevel
 }
 
 // mLevelIsEnabledAs is a replacement table of two levels.
